@@ -447,10 +447,17 @@ class Heap:
         return self._arr(self.schema.fields[fdkey])
 
 
+COERCE_HOOKS: list = []  # functions (val, ty) -> SV | None, registered by sidecar modules for union-like slots
+
+
 def coerce(val: SV, ty: Ty) -> SV:
     """Adapt a value to a declared type (None -> opt/ref, T -> opt(T), bool->int)."""
     if val.ty == ty:
         return val
+    for hk in COERCE_HOOKS:
+        r = hk(val, ty)
+        if r is not None:
+            return r
     k = ty.kind
     if k == "opt":
         if val.ty.kind == "none":
